@@ -34,6 +34,8 @@ def run(prog, tier):
         check_enumerator(R, prog, mod, enum, pred)
         check_predicate(R, prog, mod, pred)
     check_cli(R, prog)
+    from ._shared import check_iterator_reuse
+    check_iterator_reuse(R, prog, P, ['cnfgen.families.randomformulas', 'cnfgen.families.randomkxor'], 5)
     return R
 
 
